@@ -34,7 +34,7 @@ theorem graphic_data_roundtrip (gt : String) (finite : α → Bool) (dbl : Bool)
       getGraphicData (parse g) (ctOf c) = .ok (castG cast gd) := by
   refine ⟨{ gtype := gt, enc := expectedEnc gt dbl cast gd c, cache := some (ctOf c, gd) }, ?_, ?_⟩
   · simp [construct, encode_valid gt finite dbl cast gd c v, ctOf]
-  · simp only [getGraphicData, parse]
+  · simp only [getGraphicData, parse, ctOf, guard_expected gt dbl cast gd c none (Or.inl rfl)]
     exact decode_expected gt finite dbl cast gd c v
 
 /-- The freshly built object returns exactly the arrays it was given (and refuses the other coordinate type). -/
@@ -99,39 +99,25 @@ theorem coordinates_rejected (gt : String) (finite : α → Bool) (dbl : Bool) (
     have hn' : (castG cast gd).length ≤ k.toNat - 1 := by omega
     simp [getCoordinates, coordIndex_spec, h1, h0, hr, hf, List.getElem?_eq_none hn, List.getElem?_eq_none hn']
 
-/- FULL STATEMENT (not a theorem of the code as it is — open finding C18-wrong-coordinate-type):
-   "Call order does not matter: on a parsed group ANY history of accesses gives, access by access, the answer a freshly
-   parsed object gives to that single access, and an access with the other coordinate type is refused without side effect."
-   A parsed group does not know its coordinate type (it is an attribute of the SOP instance): `get_graphic_data` decodes
-   with whatever type is requested and caches the result under that key, after which the right type is refused
-   (`counterexample_wrong_coordinate_type`).  Proved below: the statement restricted to histories that use the group's
-   own coordinate type. -/
-
-/-- **Call order does not matter — for histories that use the coordinate type the group was built with.**
-On a parsed group (whose cache `_graphic_data` is filled by the first decoding) any such history of
-whole-group and per-annotation accesses — per-annotation first, whole first, outside numbers in between —
-gives, access by access, the answer a freshly parsed object gives to that single access: the whole stored
-input, its `k`-th annotation, ValueError for `k < 1`, IndexError for `k > n`. -/
-theorem history_independent_partial (gt : String) (finite : α → Bool) (dbl : Bool) (cast : α → α) (gd : GData α) (c : Nat)
-    (v : Valid gt finite cast gd c) (g : Group α) (hg : construct gt finite dbl cast gd = .ok g) (accs : List Access)
-    (hown : ∀ a ∈ accs, a.ct = ctOf c) :
-    runHistory (parse g) accs = accs.map (fun a => (accessS (parse g) a).1) ∧
-    (accessS (parse g) (.whole (ctOf c))).1 = .ok (.whole (castG cast gd)) ∧
-    (∀ (k : Nat) (hk : k < gd.length), (accessS (parse g) (.nth ((k : Int) + 1) (ctOf c))).1 =
+/-- what a freshly parsed object answers to single accesses with the group's own coordinate type -/
+theorem fresh_answers (gt : String) (finite : α → Bool) (dbl : Bool) (cast : α → α) (gd : GData α) (c : Nat)
+    (v : Valid gt finite cast gd c) (kn : Option Int) (hk : kn = none ∨ kn = some (ctOf c)) :
+    let p : Group α := { gtype := gt, enc := expectedEnc gt dbl cast gd c, cache := none, known := kn }
+    (accessS p (.whole (ctOf c))).1 = .ok (.whole (castG cast gd)) ∧
+    (∀ (k : Nat) (hk : k < gd.length), (accessS p (.nth ((k : Int) + 1) (ctOf c))).1 =
       .ok (.nth ((castG cast gd)[k]'(by simpa [castG] using hk)))) ∧
-    (∀ k : Int, k < 1 → (accessS (parse g) (.nth k (ctOf c))).1 = .error .value) ∧
-    (∀ k : Int, (gd.length : Int) < k → (accessS (parse g) (.nth k (ctOf c))).1 = .error .index) := by
+    (∀ k : Int, k < 1 → (accessS p (.nth k (ctOf c))).1 = .error .value) ∧
+    (∀ k : Int, (gd.length : Int) < k → (accessS p (.nth k (ctOf c))).1 = .error .index) := by
+  intro p
   have hdec : decode gt (expectedEnc gt dbl cast gd c) (ctOf c) = .ok (castG cast gd) :=
     decode_expected gt finite dbl cast gd c v
-  simp only [construct, encode_valid gt finite dbl cast gd c v] at hg
-  have hp : parse g = { gtype := gt, enc := expectedEnc gt dbl cast gd c, cache := none } := by cases hg; rfl
-  rw [hp]
-  have hS : getGraphicDataS ({ gtype := gt, enc := expectedEnc gt dbl cast gd c, cache := none } : Group α) (ctOf c) =
-      .ok (castG cast gd, { gtype := gt, enc := expectedEnc gt dbl cast gd c, cache := some (ctOf c, castG cast gd) }) := by
-    simp [getGraphicDataS, hdec]
+  have hguard : coordTypeGuard (ctOf c) kn (expectedEnc gt dbl cast gd c).commonZ.isSome = .ok 0 :=
+    guard_expected gt dbl cast gd c kn hk
+  have hS : getGraphicDataS p (ctOf c) =
+      .ok (castG cast gd, { gtype := gt, enc := expectedEnc gt dbl cast gd c, cache := some (ctOf c, castG cast gd), known := kn }) := by
+    simp [p, getGraphicDataS, hdec, hguard]
   have hlen : (castG cast gd).length = gd.length := by simp [castG]
-  refine ⟨?_, ?_, ?_, ?_, ?_⟩
-  · exact runHistory_independent gt _ (ctOf c) (castG cast gd) hdec accs hown _ ⟨rfl, rfl, Or.inl rfl⟩
+  refine ⟨?_, ?_, ?_, ?_⟩
   · simp [accessS, hS]
   · intro k hk
     have hci : coordIndex ((k : Int) + 1) = .ok (k : Int) := by
@@ -149,10 +135,118 @@ theorem history_independent_partial (gt : String) (finite : α → Bool) (dbl : 
     have hn : (castG cast gd).length ≤ k.toNat - 1 := by omega
     simp [accessS, coordIndex_spec, h1, h0, hS, List.getElem?_eq_none hn]
 
+/-- **Call order does not matter, and the other coordinate type is refused without side effect** — for every group
+read through its instance (`annread`, `MicroscopyBulkSimpleAnnotations.from_dataset`, which hands the instance's
+AnnotationCoordinateType down to the groups: `Gen.sopHandsDownCoordinateType`, `Gen.coordTypeGuard`).  ANY history of
+whole-group and per-annotation accesses with ANY coordinate types gives, access by access, the answer a freshly parsed
+object gives to that single access: with the group's own type the whole stored input / its `k`-th annotation /
+ValueError for `k < 1` / IndexError for `k > n`; with the other type ValueError — and nothing an earlier access did
+(the cache `_graphic_data` is filled by the first decoding) changes a later answer. -/
+theorem history_independent (gt : String) (finite : α → Bool) (dbl : Bool) (cast : α → α) (gd : GData α) (c : Nat)
+    (v : Valid gt finite cast gd c) (g : Group α) (hg : construct gt finite dbl cast gd = .ok g) (accs : List Access) :
+    runHistory (parseVia (ctOf c) g) accs = accs.map (fun a => (accessS (parseVia (ctOf c) g) a).1) ∧
+    (∀ a : Access, a.ct ≠ ctOf c → (accessS (parseVia (ctOf c) g) a).1 = .error .value ∨
+      ∃ k, a = .nth k a.ct ∧ k < 1) ∧
+    (accessS (parseVia (ctOf c) g) (.whole (ctOf c))).1 = .ok (.whole (castG cast gd)) ∧
+    (∀ (k : Nat) (hk : k < gd.length), (accessS (parseVia (ctOf c) g) (.nth ((k : Int) + 1) (ctOf c))).1 =
+      .ok (.nth ((castG cast gd)[k]'(by simpa [castG] using hk)))) ∧
+    (∀ k : Int, k < 1 → (accessS (parseVia (ctOf c) g) (.nth k (ctOf c))).1 = .error .value) ∧
+    (∀ k : Int, (gd.length : Int) < k → (accessS (parseVia (ctOf c) g) (.nth k (ctOf c))).1 = .error .index) := by
+  have hdec : decode gt (expectedEnc gt dbl cast gd c) (ctOf c) = .ok (castG cast gd) :=
+    decode_expected gt finite dbl cast gd c v
+  simp only [construct, encode_valid gt finite dbl cast gd c v] at hg
+  have hp : parseVia (ctOf c) g =
+      { gtype := gt, enc := expectedEnc gt dbl cast gd c, cache := none, known := some (ctOf c) } := by
+    cases hg; simp [parseVia, sopHandsDownCoordinateType]
+  rw [hp]
+  have hguard := guard_expected gt dbl cast gd c (some (ctOf c)) (Or.inr rfl)
+  obtain ⟨f1, f2, f3, f4⟩ := fresh_answers gt finite dbl cast gd c v (some (ctOf c)) (Or.inr rfl)
+  have hwrong : ∀ x : Int, x ≠ ctOf c →
+      coordTypeGuard x (some (ctOf c)) (expectedEnc gt dbl cast gd c).commonZ.isSome = .error .value :=
+    fun x hx => guard_known_refuses (ctOf c) x _ hx
+  refine ⟨?_, ?_, f1, f2, f3, f4⟩
+  · refine runHistory_independent gt _ (some (ctOf c)) (ctOf c) (castG cast gd) hguard hdec accs ?_ _ ⟨rfl, rfl, rfl, Or.inl rfl⟩
+    intro a _
+    by_cases h : a.ct = ctOf c
+    · exact Or.inl h
+    · exact Or.inr (hwrong a.ct h)
+  · intro a ha
+    cases a with
+    | whole x =>
+      left
+      simp only [Access.ct] at ha
+      simp [accessS, getGraphicDataS, hwrong x ha]
+    | nth k x =>
+      simp only [Access.ct] at ha
+      by_cases hk : k < 1
+      · right; exact ⟨k, rfl, hk⟩
+      · left
+        simp [accessS, coordIndex_spec, hk, getGraphicDataS, hwrong x ha]
+
+/-- the same for a group parsed ON ITS OWN (`AnnotationGroup.from_dataset`) whose z coordinate is shared: the stored
+CommonZCoordinateValue exists for 3-D data only, so '2D' is refused and every history is order-independent -/
+theorem history_independent_shared_z (gt : String) (finite : α → Bool) (dbl : Bool) (cast : α → α) (gd : GData α) (c : Nat)
+    (v : Valid gt finite cast gd c) (g : Group α) (hg : construct gt finite dbl cast gd = .ok g)
+    (hz : (expectedEnc gt dbl cast gd c).commonZ.isSome = true) (accs : List Access) :
+    ctOf c = 3 ∧ runHistory (parse g) accs = accs.map (fun a => (accessS (parse g) a).1) ∧
+    (∀ x : Int, x ≠ 3 → (accessS (parse g) (.whole x)).1 = .error .value) := by
+  have hc3 : c = 3 := expectedEnc_commonZ_c3 gt dbl cast gd c hz
+  have hct : ctOf c = 3 := by simp [ctOf, hc3]
+  have hdec : decode gt (expectedEnc gt dbl cast gd c) (ctOf c) = .ok (castG cast gd) :=
+    decode_expected gt finite dbl cast gd c v
+  simp only [construct, encode_valid gt finite dbl cast gd c v] at hg
+  have hp : parse g = { gtype := gt, enc := expectedEnc gt dbl cast gd c, cache := none, known := none } := by cases hg; rfl
+  rw [hp]
+  have hguard := guard_expected gt dbl cast gd c none (Or.inl rfl)
+  have hwrong : ∀ x : Int, x ≠ ctOf c →
+      coordTypeGuard x none (expectedEnc gt dbl cast gd c).commonZ.isSome = .error .value := by
+    intro x hx
+    rw [hz]
+    exact guard_commonZ_refuses none x (by rw [hct] at hx; exact hx)
+  refine ⟨hct, ?_, ?_⟩
+  · refine runHistory_independent gt _ none (ctOf c) (castG cast gd) hguard hdec accs ?_ _ ⟨rfl, rfl, rfl, Or.inl rfl⟩
+    intro a _
+    by_cases h : a.ct = ctOf c
+    · exact Or.inl h
+    · exact Or.inr (hwrong a.ct h)
+  · intro x hx
+    simp [accessS, getGraphicDataS, hwrong x (by rw [hct]; exact hx)]
+
+/- FULL STATEMENT for a group parsed on its own without a shared z (not a theorem of the code — open finding
+   C18-wrong-coordinate-type, narrowed): "… ANY history … and an access with the other coordinate type is refused".
+   Such an item carries nothing that tells its coordinate type (AnnotationCoordinateType is an attribute of the
+   instance): `get_graphic_data` decodes with whatever type is requested and caches the result under that key, after
+   which the right type is refused (`counterexample_wrong_coordinate_type`).  Proved below: the statement restricted to
+   histories that use the group's own coordinate type. -/
+
+/-- **Call order does not matter — group parsed on its own, histories that use the coordinate type the group was
+built with.**  Any such history of whole-group and per-annotation accesses — per-annotation first, whole first,
+outside numbers in between — gives, access by access, the answer a freshly parsed object gives to that single access:
+the whole stored input, its `k`-th annotation, ValueError for `k < 1`, IndexError for `k > n`. -/
+theorem history_independent_partial (gt : String) (finite : α → Bool) (dbl : Bool) (cast : α → α) (gd : GData α) (c : Nat)
+    (v : Valid gt finite cast gd c) (g : Group α) (hg : construct gt finite dbl cast gd = .ok g) (accs : List Access)
+    (hown : ∀ a ∈ accs, a.ct = ctOf c) :
+    runHistory (parse g) accs = accs.map (fun a => (accessS (parse g) a).1) ∧
+    (accessS (parse g) (.whole (ctOf c))).1 = .ok (.whole (castG cast gd)) ∧
+    (∀ (k : Nat) (hk : k < gd.length), (accessS (parse g) (.nth ((k : Int) + 1) (ctOf c))).1 =
+      .ok (.nth ((castG cast gd)[k]'(by simpa [castG] using hk)))) ∧
+    (∀ k : Int, k < 1 → (accessS (parse g) (.nth k (ctOf c))).1 = .error .value) ∧
+    (∀ k : Int, (gd.length : Int) < k → (accessS (parse g) (.nth k (ctOf c))).1 = .error .index) := by
+  have hdec : decode gt (expectedEnc gt dbl cast gd c) (ctOf c) = .ok (castG cast gd) :=
+    decode_expected gt finite dbl cast gd c v
+  simp only [construct, encode_valid gt finite dbl cast gd c v] at hg
+  have hp : parse g = { gtype := gt, enc := expectedEnc gt dbl cast gd c, cache := none, known := none } := by cases hg; rfl
+  rw [hp]
+  obtain ⟨f1, f2, f3, f4⟩ := fresh_answers gt finite dbl cast gd c v none (Or.inl rfl)
+  refine ⟨?_, f1, f2, f3, f4⟩
+  exact runHistory_independent gt _ none (ctOf c) (castG cast gd) (guard_expected gt dbl cast gd c none (Or.inl rfl)) hdec accs
+    (fun a ha => Or.inl (hown a ha)) _ ⟨rfl, rfl, rfl, Or.inl rfl⟩
+
 /-- three 2-D POINTs `(1,2) (3,4) (5,6)` as stored by the constructor -/
 def exPointsEnc : Enc Int := { coords := [1, 2, 3, 4, 5, 6], double := false, commonZ := none, indexList := none, numAnn := 3 }
 
-/-- **Counterexample (open finding C18-wrong-coordinate-type).**  On the parsed group of three 2-D points, asking
+/-- **Counterexample (open finding C18-wrong-coordinate-type, now only for a group parsed ON ITS OWN by
+`AnnotationGroup.from_dataset`, without a shared z).**  On the parsed group of three 2-D points, asking
 for '3D' first is NOT refused: it returns two reinterpreted points `(1,2,3) (4,5,6)` and poisons the cache, so the
 following request for the right type '2D' raises ValueError — although a freshly parsed object answers it with
 the three stored points (and the freshly built object refuses '3D', `graphic_data_fresh`). -/
@@ -162,6 +256,35 @@ theorem counterexample_wrong_coordinate_type :
     runHistory ({ gtype := "POINT", enc := exPointsEnc, cache := none } : Group Int) [.whole 2] =
       [.ok (.whole [[[1, 2]], [[3, 4]], [[5, 6]]])] := by
   decide
+
+/-- the same three points read through their instance (AnnotationCoordinateType 2D handed down): '3D' is refused and
+leaves no trace, '2D' then returns the three stored points -/
+example : runHistory (parseVia 2 ({ gtype := "POINT", enc := exPointsEnc, cache := none } : Group Int)) [.whole 3, .nth 1 3, .whole 2] =
+    [.error .value, .error .value, .ok (.whole [[[1, 2]], [[3, 4]], [[5, 6]]])] := by decide
+
+omit [DecidableEq α] in
+/-- **bridge to `ann/sop.py`**: `MicroscopyBulkSimpleAnnotations.from_dataset` (and `annread`) hand the instance's coordinate
+type to every parsed group (`Gen.sopHandsDownCoordinateType`, regenerated), which is what `parseVia` records; a group parsed
+on its own learns nothing -/
+theorem tie_sop_hands_down (t : Int) (g : Group α) :
+    sopHandsDownCoordinateType = true ∧ (parseVia t g).known = some t ∧ (parseVia t g).cache = none ∧
+    (parseVia t g).enc = g.enc ∧ (parse g).known = g.known :=
+  ⟨rfl, by simp [parseVia, sopHandsDownCoordinateType], rfl, rfl, rfl⟩
+
+/-- **Round trip through the instance**: the group read back from its instance returns every annotation unchanged and —
+like the freshly built object — refuses the other coordinate type -/
+theorem graphic_data_roundtrip_via_instance (gt : String) (finite : α → Bool) (dbl : Bool) (cast : α → α) (gd : GData α) (c : Nat)
+    (v : Valid gt finite cast gd c) :
+    ∃ g, construct gt finite dbl cast gd = .ok g ∧
+      getGraphicData (parseVia (ctOf c) g) (ctOf c) = .ok (castG cast gd) ∧
+      ∀ ct, ct ≠ ctOf c → getGraphicData (parseVia (ctOf c) g) ct = .error .value := by
+  refine ⟨{ gtype := gt, enc := expectedEnc gt dbl cast gd c, cache := some (ctOf c, gd) }, ?_, ?_, ?_⟩
+  · simp [construct, encode_valid gt finite dbl cast gd c v, ctOf]
+  · simp only [getGraphicData, parseVia, sopHandsDownCoordinateType, if_true, ctOf,
+      guard_expected gt dbl cast gd c (some (if c = 3 then 3 else 2)) (Or.inr rfl)]
+    exact decode_expected gt finite dbl cast gd c v
+  · intro ct hct
+    simp only [getGraphicData, parseVia, sopHandsDownCoordinateType, if_true, guard_known_refuses (ctOf c) ct _ hct]
 
 /-! ## stored attributes (L1) -/
 
